@@ -10,7 +10,7 @@
    group at 16/17, closures two levels deep with 1 and 2 upvalues) satisfies every hypothesis. *)
 From Coq Require Import Uint63 Floats Lia.
 From GL Require Import Common.Bytes Lua.Syntax Lua.Values Lua.Run Lua.LuaCases.
-From GL Require Import VMX.Machine VMX.Step VMX.VRun VMX.VmCases VMX.WfTie VMX.RunSafe.
+From GL Require Import VMX.Machine VMX.Step VMX.VRun VMX.VmCases VMX.WfTie VMX.RunSafe VMX.RunInv.
 From GL Require VM.WfProto VM.WfFacts VMX.WfTieFacts VMX.RunSafeFacts VMX.HeapSafeFacts VMX.DiscFacts.
 Open Scope Z_scope.
 
@@ -84,3 +84,26 @@ Proof. intros b s Hp Hl. unfold ml_pop, vmod. split; [exact Hp|reflexivity]. Qed
 
 Example tfor_stk : stk [cf_tfor] (with_stack (init_vstate p_tfor) [cf_tfor]).
 Proof. split; [apply DiscFacts.init_par_ok|reflexivity]. Qed.
+
+(* the hypotheses of the invariant theorems (RunInvFacts): the popping loop is a safe re-entered
+   loop in the sense of ml_safeP, a trivial side condition is stable, host functions that keep the
+   invariant exist (any that satisfies jg, e.g. one returning at once), and the initial state of a
+   run satisfies run_inv *)
+Example ml_pop_safeP : ml_safeP ml_pop.
+Proof.
+  intros Phi HP f X s [[H1 [H2 [H3 H4]]] _]. unfold ml_pop, vmod.
+  split; [exact H1|]. split; [exact H2|]. split; [eapply HP; [|exact H3]; intros c cl E; exists cl; auto|].
+  cbn [vstack with_stack]. rewrite H4. reflexivity.
+Qed.
+
+Example stable_true : stable (fun _ => True).
+Proof. intros s s' _ _. exact I. Qed.
+
+Example gf_ret_jg : forall b : builtin, jg ((fun _ => vret 0) b : VM Z).
+Proof. intros b Phi HP X s Hs. exact Hs. Qed.
+
+Example tfor_run_inv : run_inv (init_vstate p_tfor).
+Proof.
+  split; [apply HeapSafeFacts.init_heap_ok; apply tfor_chunk_ok|].
+  split; [apply DiscFacts.init_par_ok|constructor].
+Qed.
